@@ -926,7 +926,7 @@ def m_deque_push_back(ex, st, callee, args, dty, m):
     return NotImplemented
 
 
-@model(MAP_RE + r"::(iter_mut|iter)$|<&(?:mut )?(?:std::collections::)?HashMap<.*> as IntoIterator>::into_iter$")
+@model(MAP_RE + r"::(iter_mut|iter)$|<&(?:mut )?(?:std::collections::|ahash::)?A?HashMap<.*> as IntoIterator>::into_iter$")
 def m_map_iter(ex, st, callee, args, dty, m):
     mv = as_map(ex, args[0])
     if mv.entries is None:
